@@ -55,7 +55,9 @@ fn bad_step(wh: Where, s: &str, val: &str) -> Step {
 }
 
 fn run() {
-    let mut w = world(2);
+    // how the contract was registered: directly, or through the wrapper's Empty adapters
+    let adapted = choose(2) == 1;
+    let mut w = crate::tree::world_of(2, adapted);
     let (k0, k1, sink, user) = (w.ks[0].clone(), w.ks[1].clone(), w.sink.clone(), w.user.clone());
     let wh = [Where::RespAttr, Where::EventAttr, Where::EventType][choose(3)];
     let s = match wh {
@@ -74,7 +76,7 @@ fn run() {
         .then(bad_step(wh, s, val))
         .sub(BankMsg::Send { to_address: sink.to_string(), amount: vec![coin(amt, "x")] }, ReplyOn::Never, 9, None);
     let entry = choose(6);
-    note(format!("where={:?} s={:?} val={:?} entry={} rejected={}", wh, s, val, entry, rejected));
+    note(format!("where={:?} s={:?} val={:?} entry={} rejected={} adapted={}", wh, s, val, entry, rejected, adapted));
     let before = snapshot(&w.app);
     let r = catch(|| match entry {
         0 => w.app.execute_contract(user.clone(), k0.clone(), &body, &[]).map(|r| r.events),
@@ -102,7 +104,7 @@ fn run() {
         }
         _ => {
             // migrate
-            let code2 = w.app.store_code(sc::contract_v2());
+            let code2 = w.app.store_code(if adapted { sc::contract_adapted() } else { sc::contract_v2() });
             let c = w.app.instantiate_contract(1, user.clone(), &Script::new(), &[], "adm", Some(user.to_string())).unwrap();
             let msg: CosmosMsg = WasmMsg::Migrate { contract_addr: c.to_string(), new_code_id: code2, msg: body.bin() }.into();
             w.app.execute(user.clone(), msg).map(|r| r.events)
